@@ -173,7 +173,7 @@ FoldAnd(vs, n) == IF n = 1 THEN vs[1] ELSE Logic2(FoldAnd(vs, n - 1), vs[n], LAM
 FoldOr(vs, n)  == IF n = 1 THEN vs[1] ELSE Logic2(FoldOr(vs, n - 1), vs[n], LAMBDA x, y : x \/ y)
 
 Eval(e, env) ==
-  CASE e.k = "int"  -> I(e.v)
+  CASE e.k \in {"int", "rawint"} -> I(e.v)      \* rawint: an integer literal node holding a (possibly negative) value
     [] e.k = "real" -> Q(e.n, e.d)
     [] e.k = "log"  -> L(e.v)
     [] e.k = "var"  -> IF e.name \in DOMAIN env THEN env[e.name] ELSE UF(e.name, <<>>)   \* other names: uninterpreted
